@@ -1050,6 +1050,13 @@ func c14GenStep(rng *rand.Rand, p c14Prog, probe bool) c14Step {
 	st.Bact = c14GenActs(rng, 3, pEnd)
 	st.Ract = c14GenActs(rng, 3, pEnd)
 	st.Eact = c14GenActs(rng, 2, pEnd)
+	if probe {
+		// a probe never seeds from the clock: what it prints has to be reproducible
+		noClock := func(l string) string {
+			return strings.Join(strings.Fields(strings.ReplaceAll(" "+l+" ", " srandclock ", " ")), " ")
+		}
+		st.Bact, st.Ract, st.Eact = noClock(st.Bact), noClock(st.Ract), noClock(st.Eact)
+	}
 	if probe && rng.Intn(3) == 0 {
 		// a probe that looks at everything first
 		st.Bact = strings.TrimSpace("closes getf getstdin fields " + st.Bact)
@@ -1326,7 +1333,9 @@ const (
 )
 
 func c14SysProbes(p c14Prog, deep bool) []c14Step {
-	wide := "closes getf getstdin rand srand fields chars"
+	// number/string conversions come first: a conversion remembered from the history run would
+	// be the first thing the probe meets
+	wide := "numstr pnum strnum closes getf getstdin rand srand fields chars"
 	if deep {
 		wide += " deep"
 	}
@@ -1372,6 +1381,9 @@ func c14SysCase(p c14Prog, act string, phase, variant, probeIdx int, mode string
 	h := c14Step{Stdin: c14PlainStd, At: 2, DeepN: p.deepMax, CMark: true}
 	if variant == 1 {
 		h = c14Step{Stdin: c14CSVStd, At: 2, DeepN: p.deepMax, InMode: int(interp.CSVMode), Header: true, UseAt: true, OutMode: int(interp.CSVMode)}
+	}
+	if act == "convfmt" || act == "ofmt" {
+		act += " numstr pnum numstr" // convert under the changed format; the last conversion is the probe's first
 	}
 	switch phase {
 	case 0:
@@ -1433,6 +1445,7 @@ func init() {
 		Floors: func(t core.Tier) map[string]int {
 			return map[string]int{
 				"evaluations":            n(t, 25000, 400000),
+				"fixed_sequences":        len(c14FixedCases()),
 				"distinct_nontrivial":    n(t, 20000, 350000),
 				"cases_reset":            n(t, 7000, 120000),
 				"cases_resetvars":        n(t, 4000, 70000),
@@ -1465,6 +1478,7 @@ func init() {
 			for _, p := range progs {
 				byName[p.name] = p
 			}
+			c14Fixed(c)
 			// systematic family: quick takes every 10th case (offset by the seed), thorough all
 			stride := n(c.Tier, 10, 1)
 			off := int(c.Seed % int64(stride))
@@ -1485,6 +1499,9 @@ func init() {
 			}
 		},
 		Replay: func(c *core.Ctx, raw json.RawMessage) {
+			if c14FixedReplay(c, raw) {
+				return
+			}
 			var cs c14Case
 			if err := json.Unmarshal(raw, &cs); err != nil {
 				fmt.Println("bad case:", err)
